@@ -32,9 +32,11 @@ try:
                   "summary": q.stdout.strip().splitlines()[-1][:160] if q.stdout.strip() else ""}
     m = {"property": cid, "round": int(rnd), "kind": "behaviour-preserving change (no check may report it)", "title": meta.get("title"), "why_neutral": meta.get("why_neutral"),
          "files": meta.get("files"), "source": "independent sub-agent given only the property text and a scratch worktree",
-         "suite_passes_with_patch": suite_ok, "checks": res, "alarms": sorted(c for c, v in res.items() if v["exit"] != 0 or v["first"])}
+         "suite_passes_with_patch": suite_ok, "checks": res,
+         "alarms": sorted(c for c, v in res.items() if v["exit"] != 0 or v["first"].startswith("VIOLATION")),
+         "no_verdict": sorted(c for c, v in res.items() if v["first"].startswith("INFRA"))}
     json.dump(m, open(d + "/meta.json", "w"), indent=1)
-    print(cid, "neutral: suite_ok", suite_ok, "alarms", m["alarms"], {c: v["first"] or v["clause"] for c, v in res.items() if v["exit"] != 0 or v["first"]})
+    print(cid, "neutral: suite_ok", suite_ok, "alarms", m["alarms"], "no_verdict", m["no_verdict"], {c: (v["first"] or v["clause"])[:160] for c, v in res.items() if v["exit"] != 0 or v["first"]})
 finally:
     subprocess.call(["git", "-C", "/repo", "worktree", "remove", "--force", W])
     shutil.rmtree(W + ".out", ignore_errors=True)
